@@ -6,6 +6,7 @@ PROPERTIES = {
     "C01": [("ec", 1.0, 8)],
     "C02": [("ec", 1.0, 8)],
     "C09": [("hd", 1.0, 20)],
+    "C13": [("wallet", 1.0, 60)],
     "C14": [("spv", 1.0, 40)],
     "C19": [("hashcfg", 0.5, 100), ("spv", 0.5, 40)],
 }
